@@ -236,6 +236,38 @@ fn e4() -> Vec<Case> {
             );
         }
     }
+    // the right side of a compound assignment may hold any expression inside brackets of its own:
+    // parentheses, call arguments, literal elements, an index, an interpolation part, a lambda body
+    {
+        let paren = |e: Expr| Expr::Paren(Box::new(e));
+        let bracketed: Vec<Expr> = vec![
+            paren(bin(BinOp::Eq, t(2, num(1.0)), t(3, num(1.0)))),
+            paren(bin(BinOp::Lt, t(2, num(1.0)), t(3, num(2.0)))),
+            paren(Expr::And(Box::new(t(2, num(4.0))), Box::new(t(3, num(5.0))))),
+            paren(Expr::Or(Box::new(t(2, Expr::Nil)), Box::new(t(3, num(6.0))))),
+            bin(BinOp::Add, paren(Expr::Or(Box::new(Expr::False), Box::new(num(2.0)))), num(1.0)),
+            call(var("pick"), vec![bin(BinOp::Eq, num(1.0), num(1.0)), num(7.0)]),
+            call(var("pick"), vec![Expr::And(Box::new(num(1.0)), Box::new(Expr::Nil)), num(8.0)]),
+            index(Expr::VecLit(vec![bin(BinOp::Lt, num(1.0), num(2.0)), num(9.0)]), num(1.0)),
+            index(Expr::VecLit(vec![num(3.0), num(4.0)]), paren(Expr::Or(Box::new(Expr::Nil), Box::new(num(1.0))))),
+            Expr::Interp(vec![Part::Lit("is ".into()), Part::Expr(bin(BinOp::Eq, num(1.0), num(2.0)))]),
+            call(paren(lambda_block(&[], vec![expr_stmt(assign("side", num(5.0))), st(StmtKind::Return(Some(bin(BinOp::Add, var("side"), num(1.0)))))])), vec![]),
+            // (Q) a second assignment inside the right side - `a += (b = 3)`, `a += (b += 1)` - is rejected
+            // by the compiler on purpose (the repository's operator/*_assign_precedence scripts fix that)
+            // and is outside the alphabet
+        ];
+        let pick = fn_stmt(func("pick", &["c", "v"], vec![st(StmtKind::If(var("c"), vec![st(StmtKind::Return(Some(var("v"))))], None)), st(StmtKind::Return(Some(num(0.0))))]));
+        for op in [BinOp::Add, BinOp::Sub, BinOp::BitOr, BinOp::Shl] {
+            for rhs in &bracketed {
+                push("E4_compound_bracketed_right_side", vec![pick.clone(), var_stmt("side", num(0.0)), var_stmt("g", num(12.0)), print_stmt(Expr::CompoundAssign("g".into(), op, Box::new(rhs.clone()))), print_stmt(var("g")), print_stmt(var("side"))]);
+                push("E4_compound_bracketed_right_side", vec![pick.clone(), var_stmt("side", num(0.0)), block(vec![var_stmt("l", s("text")), print_stmt(Expr::CompoundAssign("l".into(), op, Box::new(rhs.clone()))), print_stmt(var("l")), print_stmt(var("side"))])]);
+                push(
+                    "E4_compound_bracketed_right_side",
+                    vec![pick.clone(), var_stmt("side", num(0.0)), k.clone(), var_stmt("o", invoke(var("K"), "new", vec![])), expr_stmt(set(var("o"), "f", num(12.0))), print_stmt(Expr::CompoundSet(Box::new(var("o")), "f".into(), op, Box::new(rhs.clone()))), print_stmt(get(var("o"), "f")), print_stmt(var("side"))],
+                );
+            }
+        }
+    }
     push("E4_assign_value", vec![var_stmt("a", num(1.0)), var_stmt("b", num(2.0)), print_stmt(assign("a", assign("b", num(5.0)))), print_stmt(var("a")), print_stmt(var("b"))]);
     push("E4_assign_undefined", vec![expr_stmt(assign("nope", t(1, num(5.0))))]);
     push("E4_assign_undefined", vec![print_stmt(var("nope"))]);
